@@ -34,6 +34,7 @@ VIEW_SPECS = (
     ("seqguard", ["sequential", "guarded", "get"]),  # 6: P=4 over two code objects, 1 branch-less
     ("loop", ["loop", "outer"]),  # 7: P=4 (for/else/break, while), 1 branch-less
     ("bool", ["boolops", "inner"]),  # 8: P=4 on one source line
+    ("twins", ["twin_a", "twin_b"]),  # 9: two same-shaped code objects (equal node indices), one predicate each
 )
 VIEWS = tuple(ft.View(names, n_lines=4) for _, names in VIEW_SPECS)
 VIEW_ID = {name: i for i, (name, _) in enumerate(VIEW_SPECS)}
@@ -208,7 +209,7 @@ def h_values(v: int, klo: int, khi: int, s0: int, n0: int, a0: int, k0: int, s1:
              s2: int, n2: int, a2: int, k2: int, s3: int, n3: int, a3: int, k3: int,
              c0: bool, c1: bool, c2: bool) -> bool:
     """
-    pre: 0 <= v <= 8 and 0 <= klo <= khi <= 6
+    pre: 0 <= v <= 9 and 0 <= klo <= khi <= 6
     pre: 0 <= s0 <= 3 and 1 <= n0 <= 1000 and 1 <= a0 <= 2**60 and klo <= k0 <= khi
     pre: 0 <= s1 <= 3 and 1 <= n1 <= 1000 and 1 <= a1 <= 2**60 and klo <= k1 <= khi
     pre: 0 <= s2 <= 3 and 1 <= n2 <= 1000 and 1 <= a2 <= 2**60 and klo <= k2 <= khi
@@ -224,7 +225,7 @@ def h_is_covered(v: int, klo: int, khi: int, s0: int, n0: int, a0: int, k0: int,
                  s2: int, n2: int, a2: int, k2: int, s3: int, n3: int, a3: int, k3: int,
                  c0: bool, c1: bool, c2: bool) -> bool:
     """
-    pre: 0 <= v <= 8 and 0 <= klo <= khi <= 6
+    pre: 0 <= v <= 9 and 0 <= klo <= khi <= 6
     pre: 0 <= s0 <= 3 and 1 <= n0 <= 1000 and 1 <= a0 <= 2**60 and klo <= k0 <= khi
     pre: 0 <= s1 <= 3 and 1 <= n1 <= 1000 and 1 <= a1 <= 2**60 and klo <= k1 <= khi
     pre: 0 <= s2 <= 3 and 1 <= n2 <= 1000 and 1 <= a2 <= 2**60 and klo <= k2 <= khi
@@ -240,7 +241,7 @@ def h_goals(v: int, klo: int, khi: int, s0: int, n0: int, a0: int, k0: int, s1: 
             s2: int, n2: int, a2: int, k2: int, s3: int, n3: int, a3: int, k3: int,
             c0: bool, c1: bool, c2: bool) -> bool:
     """
-    pre: 0 <= v <= 8 and 0 <= klo <= khi <= 6
+    pre: 0 <= v <= 9 and 0 <= klo <= khi <= 6
     pre: 0 <= s0 <= 3 and 1 <= n0 <= 1000 and 1 <= a0 <= 2**60 and klo <= k0 <= khi
     pre: 0 <= s1 <= 3 and 1 <= n1 <= 1000 and 1 <= a1 <= 2**60 and klo <= k1 <= khi
     pre: 0 <= s2 <= 3 and 1 <= n2 <= 1000 and 1 <= a2 <= 2**60 and klo <= k2 <= khi
@@ -450,6 +451,8 @@ def obligations(tier: str):
         obs.append(fam("is_covered", h_is_covered, name, 0))
         if name != "empty":
             obs.append(fam("goals", h_goals, name, 1))
+    # predicates of two code objects with equal CDG node indices (approach levels must not mix code objects)
+    obs.append(fam("goals", h_goals, "twins", 2))
     obs.append(fam("values", h_values, "nested", 2))
     obs.append(fam("is_covered", h_is_covered, "nested", 1))
     obs.append(fam("goals", h_goals, "nested", 2))
